@@ -100,6 +100,70 @@ def check(ctx):
             o = ordering_of(f, f.node(pt)["args"][1])
             good = satisfies(o or "Relaxed", "ACQ")
             ctx.ob("R-MO", Q + "::Position.index", "%s/tail-index-load@L" % fn, good, "tail.index.load(%s) in %s %s floor ACQ (a stealer reads the slot it guards)" % (o, fid, "meets" if good else "is BELOW"), f.where(pt))
+    # (seed C04-1) a retry after a lost CAS re-reads BOTH shadows of the tail (index and block): the decision "this is the tail
+    # block" made with a stale block pointer lets a stealer claim a whole, partly filled block
+    for fn in ("pop", "bulk_pop"):
+        fid = Q + "::Queue::" + fn
+        f = ctx.fn("R-PAIR", fid, fn + "/retry-rereads-tail")
+        if f is None: continue
+        es = ctx.edges(f, variant_of_call(cas, "Err"))
+        li = ctx.an.sites(f, Call(A("load"), **TIDX, transitive=False), "must")
+        lb = ctx.an.sites(f, Call(A("load"), on=Q + "::Position.block", on_any=Q + "::Queue.tail", transitive=False), "must")
+        cs = ctx.an.sites(f, Call(cas, on=Q + "::BlockPtr.0", transitive=False), "must")
+        if not es or not li or not lb or not cs:
+            ctx.missing("R-PAIR", fid, fn + "/retry-rereads-tail", "CAS-Err edges=%d tail.index loads=%d tail.block loads=%d" % (len(es), len(li), len(lb))); continue
+        starts = [Point(tb, 0) for _, tb, _ in es]
+        bad_i = [c for c in cs if c in ctx.an.reach(f, starts, blocked=li)]
+        bad_b = [c for c in cs if c in ctx.an.reach(f, starts, blocked=lb)]
+        ctx.ob("R-PAIR", fid, fn + "/retry-rereads-tail", not bad_i and not bad_b,
+               "after a lost head CAS both tail.index and tail.block are re-read before the next attempt" if not bad_i and not bad_b else
+               "%s retries its head CAS after a failure without re-reading %s: the emptiness / tail-block test of the retry uses a stale shadow and can claim unpublished slots" %
+               (fid, "tail.block" if bad_b else "tail.index"), f.where(sorted(cs)[0]))
+    # (seeds C04-1/C04-2) the range that bulk_pop copies ends at a value bounded by a published index, and the wait loop waits
+    # for the END of the claimed range, not for its first slot
+    f = ctx.fn("R-EXIT", Q + "::Queue::bulk_pop", "bulk/range-end-bounded")
+    if f is not None:
+        def mentions_push_index(o, depth=0):
+            o = simplify(o)
+            if depth > 12: return False
+            if o[0] == "call":
+                if re.fullmatch(A("load") + r"|may_queue::atomic::AtomicUsize::unsync_load", o[2] or ""):
+                    return receiver_leaf(f, f.term(o[1])) == Q + "::Position.index"
+                return any(mentions_push_index(trace_operand(f, a), depth + 1) for a in f.term(o[1])["args"])
+            if o[0] == "phi":
+                alts2 = [mentions_push_index(a, depth + 1) for a in o[2]]
+                return all(alts2) if depth == 0 else any(alts2)
+            if o[0] in ("bin",): return mentions_push_index(o[2], depth + 1) or mentions_push_index(o[3], depth + 1)
+            if o[0] in ("cast", "un", "field", "deref", "ref"): return mentions_push_index(o[2] if o[0] == "un" else o[1], depth + 1)
+            return False
+        ends = [(pt, simplify(trace_operand(f, f.node(pt)["args"][2]))) for pt in sorted(ctx.an.sites(f, Call(re.escape(Q) + "::BlockNode::copy_to_bulk", transitive=False), "must"))]
+        ok = bool(ends) and all(mentions_push_index(e) for _, e in ends)
+        ctx.ob("R-EXIT", Q + "::Queue::bulk_pop", "bulk/range-end-bounded", ok,
+               "the end of the range copied by bulk_pop is derived from the published tail index on every path (min(block end, push_index) or start + a count bounded by it)" if ok else
+               "bulk_pop copies up to an end (%s) that is not bounded by the published tail index on some path: unpublished (uninitialised) slots are handed out" %
+               [fmt_origin(e) for _, e in ends], f.where(ends[0][0]) if ends else f.where())
+        # wait loop compares the end of the range
+        alts = set()
+        for _, e in ends:
+            if e[0] == "phi": alts |= set(simplify(a) for a in e[2])
+            else: alts.add(e)
+        okw = None
+        for bi in range(f.nblocks()):
+            if f.is_cleanup(bi) or f.term(bi)["t"] != "sw": continue
+            o = switch_info(f, bi)
+            if o[0] == "bin" and o[1] in ("Gt", "Ge", "Lt", "Le"):
+                a, b = simplify(o[2]), simplify(o[3])
+                for x, y in ((a, b), (b, a)):
+                    # y is a *direct* tail.index load (the wait loop re-loads it every iteration)
+                    if y[0] == "call" and re.fullmatch(A("load"), y[2] or "") and receiver_leaf(f, f.term(y[1])) == Q + "::Position.index" and y[1] in \
+                       [p0.bb for p0 in ctx.an.reach(f, [Point(bi, 0)])] and Point(bi, 0) in ctx.an.reach(f, [Point(y[1], 0)]):
+                        good = x in alts or x in [e0 for _, e0 in ends]
+                        okw = good if okw is None else (okw and good)
+        if okw is None:
+            ctx.missing("R-EXIT", Q + "::Queue::bulk_pop", "bulk/wait-for-range-end", "no wait loop on tail.index found in bulk_pop")
+        else:
+            ctx.ob("R-EXIT", Q + "::Queue::bulk_pop", "bulk/wait-for-range-end", okw, "the wait loop of bulk_pop waits until the END of the claimed range is published" if okw else
+                   "bulk_pop's wait loop compares something else than the end of the claimed range with tail.index (e.g. its first slot): the rest of the range is copied unpublished", f.where())
     # bulk_pop accounts exactly the slots it copied
     f = ctx.fn("R-ENUM", Q + "::Queue::bulk_pop", "bulk/mark-equals-copied-range")
     if f is not None:
